@@ -23,7 +23,7 @@ from snaxc.ir.dart.affine_transform import AffineTransform
 PID = "C02"
 RULE = (
     "gemmx: M,N,K in {8,16,24} x kernels {qmac->i32, mac->i32, qmac->rescale->i8, gemm with C} x layouts {set-memory-layout tiled, untiled, hand-given TSL family "
-    "(tile order swapped, padded tile strides, gaps)}; alu: lengths 4..64 step 4 and 2-D shapes, i64, tiled/untiled. Every temporal step of every operand stream "
+    "(tile order swapped, padded tile strides, gaps)}; gram programs D = X*X^T (ONE buffer as two operands with different access patterns) and x+x; alu: lengths 4..64 step 4 and 2-D shapes, i64, tiled/untiled. Every temporal step of every operand stream "
     "is compared as a byte set. distinct = distinct (program, stride patterns); non-trivial = the stream has >= 2 temporal steps"
 )
 ASSUMPTIONS = [
@@ -36,8 +36,8 @@ CASE_TIMEOUT = 120
 EL = {8: "i8", 32: "i32", 64: "i64"}
 
 
-def mm_text(M, N, K, kern, layouts=None):
-    """layouts: optional per-operand TSL text"""
+def mm_text(M, N, K, kern, layouts=None, gram=False):
+    """layouts: optional per-operand TSL text. gram: D = X * X^T, i.e. ONE buffer used as both input operands with different access patterns (needs M == N)"""
     lay = layouts or [None] * 4
     out_i8 = kern == "rescale"
 
@@ -51,6 +51,11 @@ def mm_text(M, N, K, kern, layouts=None):
     ins, ins_t = ["%a", "%b"], [ta, tb]
     streams = ["%s0 : !dart.stream<i8>", "%s1 : !dart.stream<i8>"]
     pre = ""
+    if gram:
+        assert M == N
+        args.pop(1)
+        maps[1] = "affine_map<(d0, d1, d2) -> (d1, d2)>"
+        ins, ins_t = ["%a", "%a"], [ta, ta]
     if kern == "gemm":
         tcc = ty((M, N), 32, lay[3])
         args.append(f"%cc : {tcc}")
@@ -92,7 +97,7 @@ def mm_text(M, N, K, kern, layouts=None):
     return text
 
 
-def alu_text(shape, layouts=None):
+def alu_text(shape, layouts=None, same=False):
     lay = layouts or [None] * 3
     rank = len(shape)
 
@@ -104,7 +109,7 @@ def alu_text(shape, layouts=None):
     m = f"affine_map<({dims}) -> ({dims})>"
     text = (
         "builtin.module {\nfunc.func @f(" + ", ".join(f"%m{i} : {t}" for i, t in enumerate(tys)) + ") {\n"
-        + f'  "dart.operation"(%m0, %m1, %m2) <{{patterns = [{m}, {m}, {m}], accelerator = "snax_alu", operandSegmentSizes = array<i32: 2, 1>}}> ({{\n'
+        + f'  "dart.operation"(%m0, {"%m0" if same else "%m1"}, %m2) <{{patterns = [{m}, {m}, {m}], accelerator = "snax_alu", operandSegmentSizes = array<i32: 2, 1>}}> ({{\n'
         "  ^bb0(%s0 : !dart.stream<i64>, %s1 : !dart.stream<i64>, %s2 : !dart.stream<i64>):\n"
         '    %g = "dart.generic"(%s0, %s1) <{library_call = "snax_alu"}> ({\n    ^bb1(%e0 : i64, %e1 : i64, %e2 : i64):\n      %k = kernel.add %e0, %e1 : i64, i64 -> i64\n      dart.yield %k : i64\n'
         "    }) : (!dart.stream<i64>, !dart.stream<i64>) -> !dart.stream<i64>\n    dart.yield %g : !dart.stream<i64>\n"
@@ -171,6 +176,15 @@ def space(tier):
         for which in (0, 1, 2):
             for i in range(8):
                 cases.append(("mm", M, N, K, "qmac", "hand", which * 8 + i))
+    # one buffer as two operands with different access patterns: D = X * X^T
+    for M, K in itertools.product(S, repeat=2):
+        for kern in ("qmac", "mac", "rescale", "gemm"):
+            for lay in ("tiled", "untiled", "none"):
+                cases.append(("gram", M, K, kern, lay))
+    # ... and with the same access pattern: x + x
+    for n in (8, 16, 40):
+        for lay in ("tiled", "untiled", "none"):
+            cases.append(("alu2", (n,), lay))
     for n in range(4, 68, 4):
         for lay in ("tiled", "untiled"):
             cases.append(("alu", (n,), lay))
@@ -216,9 +230,13 @@ def evaluate(case) -> CaseResult:
             layouts[which] = tsl(hand_layouts(*shapes[which])[i])
         text = mm_text(M, N, K, kern, layouts)
         acc = "snax_gemmx"
+    elif kind == "gram":
+        _, M, K, kern, lay = case
+        text = mm_text(M, M, K, kern, gram=True)
+        acc = "snax_gemmx"
     else:
         _, shape, lay = case
-        text = alu_text(shape)
+        text = alu_text(shape, same=kind == "alu2")
         acc = "snax_alu"
     pipe1 = f"insert-accfg-op{{accelerator={acc}}},dart-scheduler"
     if lay in ("tiled", "untiled"):
@@ -277,6 +295,7 @@ def evaluate(case) -> CaseResult:
     # which schedule operand does each streamer pointer come from?
     impl = {}
     pats_text = []
+    taken = {}
     for si, (ptr, pat, st) in enumerate(zip(region.operands, region.stride_patterns.data, streamers)):
         ub = [x.data for x in pat.upper_bounds.data]
         ts = [x.data for x in pat.temporal_strides.data]
@@ -289,9 +308,12 @@ def evaluate(case) -> CaseResult:
         if src is None or any(u == 0 for u in ub):
             # zero-pointer stream or disabled streamer: must not be bound to an operand with a non-empty stream
             continue
-        o = next((i for i, v in enumerate(sched_operands) if v is src), None)
-        if o is None:
+        # an SSA value that occurs as several operands is identified by position: the k-th enabled streamer reading it carries its k-th occurrence
+        occ = [i for i, v in enumerate(sched_operands) if v is src]
+        if not occ:
             continue
+        o = occ[min(taken.get(id(src), 0), len(occ) - 1)]
+        taken[id(src)] = taken.get(id(src), 0) + 1
         temporal = SM.temporal_addresses(ub, ts)
         spatial = SM.spatial_offsets(ss, list(st.spatial_dims)[: len(ss)])
         seq = []
